@@ -26,6 +26,11 @@
 (*   "start_in_seeds"  : OPTICS as coded at the pinned commit: the start   *)
 (*        sample is not listed first but put among its own seeds           *)
 (*   "count_excl_self" : neighbour count without the point itself          *)
+(*   "seed_needs_free_neighbour" : the outer scan skips a core point with  *)
+(*        no unlabelled neighbour left (round 2: a core point whose        *)
+(*        neighbours are all border points already claimed by earlier      *)
+(*        clusters must still found its own cluster; lattice code 999 =    *)
+(*        the 13-point "hub" figure in which that happens)                 *)
 (***************************************************************************)
 EXTENDS Geo, TLC
 
@@ -161,13 +166,22 @@ MCount(i) == IF Variant = "count_excl_self" THEN Cardinality(MNb[i] \ {i}) ELSE 
 MCore(i) == MCount(i) >= mp
 
 Points(dim, mx) == [1..dim -> 0..mx]
+\* the hub figure (see Gen_Density): three arms (core, two extras, border point last), hub (6,6) last; with
+\* min_points 4 and tolerance 5/2 the hub is a core point whose three neighbours are border points of the arms
+HubFigure == << <<10, 6>>, <<12, 6>>, <<10, 8>>, <<8, 6>>,
+                <<6, 10>>, <<6, 12>>, <<8, 10>>, <<6, 8>>,
+                <<2, 6>>, <<0, 6>>, <<2, 4>>, <<4, 6>>,
+                <<6, 6>> >>
 Metrics(dim) == IF dim <= 1 THEN {"l1"} ELSE {"l1", "l2", "linf"}
 
 Init ==
   /\ alg \in {"dbscan", "optics"}
-  /\ \E lt \in Lattices : \E nn \in MinPts..MaxPts :
-        /\ pts \in [1..nn -> Points(lt \div 100, lt % 100)]
-        /\ metric \in Metrics(lt \div 100)
+  /\ \E lt \in Lattices :
+        IF lt = 999
+          THEN pts = HubFigure /\ metric \in {"l1", "l2"}
+          ELSE \E nn \in MinPts..MaxPts :
+                 /\ pts \in [1..nn -> Points(lt \div 100, lt % 100)]
+                 /\ metric \in Metrics(lt \div 100)
   /\ mp \in MinPtsSet /\ eps \in {<<x \div 10, x % 10>> : x \in EpsSet}
   /\ inc \in (IF HasOnRadius(DistM(pts, metric), metric, eps[1], eps[2]) THEN BOOLEAN ELSE {FALSE})
   /\ dm = DistM(pts, metric)
@@ -180,15 +194,17 @@ Init ==
 \* find_neighbors: the unlabelled neighbours other than the point itself
 Fresh(i) == {j \in MNb[i] : lab[j] < 0 /\ j # i}
 
+SeedOk(i) == MCore(i) /\ (Variant = "seed_needs_free_neighbour" => Fresh(i) # {})
+
 DSkip ==      \* already labelled, or not a core point: next index
   /\ alg = "dbscan" /\ pc = "outer" /\ oi <= MN
-  /\ lab[oi] >= 0 \/ ~MCore(oi)
+  /\ lab[oi] >= 0 \/ ~SeedOk(oi)
   /\ oi' = oi + 1
   /\ UNCHANGED <<alg, pts, metric, mp, eps, inc, dm, nb, pc, lab, cur, queue, ord, processed, rch, seeds>>
 
 DSeed ==      \* an unlabelled core point starts cluster `cur`
   /\ alg = "dbscan" /\ pc = "outer" /\ oi <= MN
-  /\ lab[oi] < 0 /\ MCore(oi)
+  /\ lab[oi] < 0 /\ SeedOk(oi)
   /\ queue' = Fresh(oi)
   /\ lab' = [lab EXCEPT ![oi] = cur]
   /\ pc' = "grow"
